@@ -140,8 +140,9 @@ func trackedPhis(fn *ssa.Function) *phiInfo {
 			}
 			if bt, ok := p.Type().Underlying().(*types.Basic); ok && bt.Kind() == types.Bool {
 				out.phis[p] = true
-			} else if ok && bt.Info()&types.IsInteger != 0 && strings.HasPrefix(p.Comment, "_ir") {
-				// integer result of an expanded helper: tracked as "the constant k" or "not negative"
+			} else if ok && bt.Info()&types.IsInteger != 0 && (strings.HasPrefix(p.Comment, "_ir") || hasNegativeConstEdge(p)) {
+				// integer result of an expanded helper, or a "found index" variable that starts at a
+				// negative sentinel: tracked as "the constant k" or "not negative"
 				out.ints[p] = true
 			} else if nilable(p.Type()) {
 				// only worth tracking when some incoming value is the nil constant
@@ -197,6 +198,21 @@ func trackedPhis(fn *ssa.Function) *phiInfo {
 	return out
 }
 
+// hasNegativeConstEdge: the phi merges a negative constant (a "not found" sentinel) with other
+// values; loop counters (phi + 1 edges) are excluded.
+func hasNegativeConstEdge(p *ssa.Phi) bool {
+	neg := false
+	for _, e := range p.Edges {
+		if k, ok := ConstInt(e); ok && k < 0 {
+			neg = true
+		}
+		if b, ok := e.(*ssa.BinOp); ok && (b.X == ssa.Value(p) || b.Y == ssa.Value(p)) {
+			return false
+		}
+	}
+	return neg
+}
+
 // nilClass: 0 nil, 1 non-nil, -1 unknown, for value v under env.
 func nilClass(v ssa.Value, env string, pi *phiInfo, depth int) int {
 	if IsNilConst(v) {
@@ -206,7 +222,7 @@ func nilClass(v ssa.Value, env string, pi *phiInfo, depth int) int {
 		return -1
 	}
 	switch x := v.(type) {
-	case *ssa.MakeInterface, *ssa.Alloc:
+	case *ssa.MakeInterface, *ssa.Alloc, *ssa.IndexAddr, *ssa.FieldAddr, *ssa.MakeSlice, *ssa.MakeMap, *ssa.MakeChan, *ssa.MakeClosure, *ssa.Function:
 		return 1
 	case *ssa.UnOp:
 		if x.Op == token.MUL {
